@@ -251,3 +251,5 @@ CHECKS["C01"]["assumptions"].append("Huffman code-length generation (LenLimitedC
 
 CHECKS["C16"]["runs"] += [gz("VerifCtorLevels", {}, {}, ["C16:"], ["ran"])]
 CHECKS["C02"]["runs"] += [rd(0, 2, labels=["C02:", "REF:"], extra={"S": 1})]
+
+CHECKS["C16"]["runs"] += [gz("VerifGzSeq", {}, {"K": 4}, ["C16:"], ["close"], thorough={"K": 5})]
